@@ -231,4 +231,8 @@ class ZeroLinearOperator(LinearOperator):
         self: Float[LinearOperator, "... #M #N"],
         other: Union[Float[Tensor, "... #M #N"], Float[LinearOperator, "... #M #N"], float],
     ) -> Union[Float[LinearOperator, "... M N"], Float[Tensor, "... M N"]]:
-        return other
+        if not hasattr(other, "shape"):
+            return other
+        # Adding zero changes nothing but the (broadcast) shape; incompatible shapes raise
+        shape = torch.broadcast_shapes(self.shape, other.shape)
+        return other if other.shape == shape else other.expand(shape)
